@@ -8,6 +8,7 @@ mod c10;
 mod c19;
 mod c20;
 mod hist;
+mod lightclient;
 mod node;
 mod tree;
 
